@@ -99,6 +99,15 @@ func NewMemoryCache[MetadataT any](cfg *config.Config, memoryBudgetPercent int, 
 			c.mu.RUnlock()
 			return ok && entry.meta.Expires.Before(time.Now())
 		},
+		lastAccess: func(key CacheKey) (time.Time, bool) {
+			c.mu.RLock()
+			entry, ok := c.entries[key]
+			c.mu.RUnlock()
+			if !ok {
+				return time.Time{}, false
+			}
+			return entry.meta.LastAccess, true
+		},
 		getCacheSize: func() int64 {
 			return c.byteSize.Get()
 		},
